@@ -42,7 +42,7 @@ func repoCallTree(p *an.Prog, roots ...*ssa.Function) []*ssa.Function {
 		seen[f] = true
 		out = append(out, f)
 		for _, g := range an.WithClosures(f) {
-			for _, b := range g.Blocks {
+			for _, b := range an.ScanBlocks(g) {
 				for _, ins := range b.Instrs {
 					if ci, ok := ins.(ssa.CallInstruction); ok {
 						if callee, ok := ci.Common().Value.(*ssa.Function); ok {
@@ -66,7 +66,7 @@ func impureIn(p *an.Prog, tree []*ssa.Function) (string, int) {
 	ncalls := 0
 	for _, f := range tree {
 		for _, g := range an.WithClosures(f) {
-			for _, b := range g.Blocks {
+			for _, b := range an.ScanBlocks(g) {
 				for _, ins := range b.Instrs {
 					if call, ok := ins.(*ssa.Call); ok {
 						ncalls++
@@ -174,7 +174,7 @@ func c13(c *an.Check) {
 			}
 			return nil
 		}
-		for _, b := range dk.Blocks {
+		for _, b := range an.ScanBlocks(dk) {
 			for _, ins := range b.Instrs {
 				x, isBin := ins.(*ssa.BinOp)
 				if !isBin || x.Op != token.XOR {
@@ -193,7 +193,7 @@ func c13(c *an.Check) {
 		}
 		// output: Digest().Read(out)
 		okOut := false
-		for _, b := range dk.Blocks {
+		for _, b := range an.ScanBlocks(dk) {
 			for _, ins := range b.Instrs {
 				if call, ok := ins.(*ssa.Call); ok {
 					if fo := an.CallObj(call.Common()); fo != nil && fo.Name() == "Read" {
